@@ -344,6 +344,11 @@ def bounded_checks(tab, seed, tier):
         if s < 4:
             Z[0], Z[-1] = (1, 103) if s % 2 else (103, 1)      # both ends of the element range in every run
         pos = rng.uniform(-8, 8, (N, 3))
+        if s % 10 == 7 and N >= 3:
+            # sites shared by two different atoms (mixed occupancy, or the same site listed in both sets of a split): they are two atoms, both count
+            pos[1] = pos[0]
+            pos[-1] = pos[N // 2]
+            Z[1] = Z[0] % 103 + 1
         pts = _far_points(rng, pos, npt, 12.0)
         if len(pts) == 0:
             continue
@@ -365,7 +370,7 @@ def bounded_checks(tab, seed, tier):
             pass
         except Exception as e:  # noqa
             rec(f_ctor, f"ctor{badZ}", {"Z": [1, badZ]}, {"raised": repr(e)}, "elements outside 1..103 are rejected with ValueError (no silent row wrap-around)")
-    dom = (f"{nsys} seeded systems of 2..39 atoms, Z uniform in 1..103, coordinates in [-8,8]^3 A, up to {npt} points in [-12,12]^3 A at least 0.3 A from every nucleus; "
+    dom = (f"{nsys} seeded systems of 2..39 atoms (every tenth with two sites shared by two atoms), Z uniform in 1..103, coordinates in [-8,8]^3 A, up to {npt} points in [-12,12]^3 A at least 0.3 A from every nucleus; "
            f"relative tolerance (10*kappa+8+N)*2^-24 (kappa = {kap:.1f})")
     out.append(dict(ident="density.PromoleculeDensity.rho/bounded/sum_of_atoms", failures=f_sum, evaluations=ev_sum, distinct=ev_sum, domain=dom, rule="distinct (system, point) pairs"))
     out.append(dict(ident="density.PromoleculeDensity.rho/bounded/additive", failures=f_add, evaluations=ev_add, distinct=ev_add, domain=dom + "; random split", rule="distinct (system, point) pairs"))
